@@ -47,6 +47,11 @@ pub trait Reim4Convolution {
         assert!(a_size > 0);
         assert!(b_size > 0);
 
+        // Nothing to compute for an empty destination (and `dst_size - 1` would underflow).
+        if dst_size == 0 {
+            return;
+        }
+
         for k in (0..dst_size - 1).step_by(2) {
             Self::reim4_convolution_2coeffs(k + offset, as_arr_mut(&mut dst[8 * k..]), a, a_size, b, b_size);
         }
@@ -67,6 +72,11 @@ pub trait Reim4Convolution {
 
     fn reim4_convolution_by_real_const(dst: &mut [f64], dst_size: usize, offset: usize, a: &[f64], a_size: usize, b: &[f64]) {
         assert!(a_size > 0);
+
+        // Nothing to compute for an empty destination (and `dst_size - 1` would underflow).
+        if dst_size == 0 {
+            return;
+        }
 
         for k in (0..dst_size - 1).step_by(2) {
             Self::reim4_convolution_by_real_const_2coeffs(k + offset, as_arr_mut(&mut dst[8 * k..]), a, a_size, b);
